@@ -398,7 +398,7 @@ class Ctx(object):
         self.events += nev
         self.transitions += r.generated
         self.states += r.distinct
-        drift = re.findall(r'<<"DRIFT", (\d+), "([^"]*)">>', r.out)
+        drift = re.findall(r'<<\s*"DRIFT",\s*(\d+),\s*"([^"]*)"\s*>>', r.out)
         if drift:
             log("MODEL-DRIFT (%s): line %s: %s" % (what, drift[0][0], drift[0][1]))
             self.extra.setdefault("model_drift", []).append({"what": what, "line": int(drift[0][0]), "msg": drift[0][1]})
@@ -406,7 +406,7 @@ class Ctx(object):
             self.traces += ntraces
             log("[M2] %s: %d traces / %d events accepted by %s (%.1fs)" % (what, ntraces, nev, tla, r.wall))
             return None
-        bad = re.findall(r'<<"BAD", (\d+), "([^"]*)">>', r.out)
+        bad = re.findall(r'<<\s*"BAD",\s*(\d+),\s*"([^"]*)"\s*>>', r.out)
         if r.kind == "invariant" and bad:
             return {"line": int(bad[0][0]), "msg": bad[0][1], "kind": "property", "inv": r.violated}
         if r.kind == "invariant":
